@@ -72,7 +72,7 @@ PRECONDITIONS ENCODED BY CONSTRUCTION (so that a refusal of run_world is the lib
   P10 hash-lock preimages are 32 bytes (BIP379) and are filed in the psbt input before signing.
   P11 v2 psbts need a non-empty output script; amounts: sum(outputs) <= sum(inputs) <= MAX_MONEY.
   P12 a descriptor index is 0 <= index < 2**31 and every descriptor is ranged.
-  P13 bare multisig keeps n <= 3, p2sh redeem scripts stay far below 520 bytes, multi_a n <= 4 or one of 11, 12, 15, 16, 20
+  P13 bare multisig keeps n <= 3, p2sh multisig n <= 4 or 14, 15 (513 of the 520 bytes), wsh multisig n <= 4 or 15, 16 (witness script of 547 bytes), multi_a n <= 4 or one of 11, 12, 15, 16, 20
       (wide ones with k <= 3 signer keys, the rest external).
 
 DETERMINISM: btclib draws BIP340 aux data (and blinding) from `secrets`; run_world calls the
@@ -358,8 +358,11 @@ def _input(draw, kind, position, n_outputs, owners, lock_time, max_amount):
         keys = [_key(draw, draw(own), purpose, 0)]
         desc = {"pkh": "pkh(@0)", "wpkh": "wpkh(@0)", "sh_wpkh": "sh(wpkh(@0))"}[kind]
     elif kind in ("multi_bare", "multi_sh", "multi_wsh", "sortedmulti_wsh", "multi_sh_wsh"):
-        n = draw(st.integers(1, 3 if kind == "multi_bare" else 4))  # P13
-        k = draw(st.integers(1, n))
+        # P13: bare multisig keeps n <= 3; a p2sh redeem script holds at most 15 compressed keys (513 of the 520 bytes); a witness
+        # script is not bound by the 520-byte element limit, and multi() takes up to 16 keys (547 bytes)
+        wide = {"multi_bare": [], "multi_sh": [14, 15], "multi_wsh": [15, 16], "sortedmulti_wsh": [15, 16], "multi_sh_wsh": [15, 16]}[kind]
+        n = draw(st.one_of(st.integers(1, 3 if kind == "multi_bare" else 4), st.integers(1, 4), st.sampled_from(wide))) if wide else draw(st.integers(1, 3))
+        k = draw(st.integers(1, min(n, 3)))
         must = draw(st.permutations(list(range(n))))[:k]
         keys = [_key(draw, draw(own) if i in must else draw(free), purpose, i) for i in range(n)]
         sort = kind == "sortedmulti_wsh" or (
